@@ -10,7 +10,10 @@ CLAUSES = {
     "C07": {"bad_old", "edge", "left_terminal", "callback", "callback_missing", "ran_after_terminal",
             "result_state", "unreported_change", "refused_but_changed", "refused_legal",
             "change_outside_resume", "body_outside_resume", "illegal_accepted", "spurious_error",
-            "current_leak", "thread_not_normal"},
+            "current_leak", "thread_not_normal",
+            # "each change is reported ... with the correct old and new state": a plain suspend reported as Cancelled, or as
+            # Suspend with somebody else's wake-up time, is a wrong new state as well as a C09 violation
+            "foreign_timestamp", "foreign_cancel"},
     "C08": {"value_in", "value_out", "panic_message", "return_lost", "panic_lost", "unwound", "panic", "hang", "abort",
             "thread_not_normal"},
     "C09": {"foreign_timestamp", "foreign_cancel", "cancel_lost"},
